@@ -16,7 +16,9 @@ MStep(m, e, idx) ==
                   !.pend = @ \cup {e.c}]
     [] e.e = "AwEval" ->
         LET c == m.call[e.c]
-            want == IF c.to = "T" THEN "T" ELSE c.thr IN
+            \* the shared loop T, the caller's own loop, or the own loop of another caller (loops are named after
+            \* their threads)
+            want == IF c.to = "T" THEN "T" ELSE IF c.to = "own" THEN c.thr ELSE c.to IN
         [m EXCEPT !.bad = IF e.loop # want THEN Flag(@, "C17", "C17_OnTarget", idx) ELSE @]
     [] e.e = "AwDone" -> [m EXCEPT !.awdone = Put(@, e.c, e.t)]
     [] e.e = "Stall" -> [m EXCEPT !.anyStall = TRUE]      \* (the harness descheduled a thread: timing is not judged)
